@@ -31,6 +31,11 @@ ASSUMPTIONS = ["centre lines of simple paths and outlines of non-simple paths ar
 @st.composite
 def case_strategy(draw, thorough=False):
     lib = draw(lg.library(path_kinds=("simple_fp", "simple_fp", "outline_fp", "rp", "simple_rp")))
+    # simple robust paths that were scaled after construction
+    for c in lib["cells"]:
+        for p in c["paths"]:
+            if p["kind"] == "rp" and p["simple"] and draw(st.integers(0, 2)) == 0:
+                p["prescale"] = draw(st.sampled_from([2.0, 0.5, 3.0]))
     # occasionally a very large array (COLROW near the 16-bit boundary) on an on-grid lattice
     if draw(st.integers(0, 9)) == 0:
         for c in lib["cells"]:
